@@ -3,6 +3,7 @@ package main
 import (
 	"fmt"
 	"go/ast"
+	"go/token"
 	"go/types"
 	"sort"
 	"strings"
@@ -541,4 +542,94 @@ func c01R34(ic *IC, r *Report) {
 	sort.Strings(bad)
 	r.Check(len(bad) == 0, "R01.34", "package/type-node-test-not-used-alone", ic.pos(ic.G.Funcs[target].Decl.Pos()), "isNamedFuncSrc is consulted only through the predicate that also looks at the symbol",
 		"the test that a function type was written in a function declaration is used alone in "+strings.Join(bad, ", ")+": cfg re-points the node of that (shared) type to the operand of a return statement, so after func named() func(int) int { return double } has been compiled, f = double, S{double} or []func(int) int{double} store the *node itself and panic in reflect")
+}
+
+func init() {
+	ruleText["R01.35"] = "a composite literal is wrapped for an interface destination only when it is built in that destination: the function giving the generators of struct literals their destination type (destType) returns the type of the statement's left-hand side only under a test that the literal has the frame location of that left-hand side (the assign operation was skipped); otherwise the literal keeps its own type and the assign operation converts it"
+}
+
+// c01R35: a regression of an earlier repair (f3e7fb7, D33: the assign operation of a multiple
+// assignment is no longer skipped) found by the round-7 agent of C04: var i1, i2 I = X{1}, X{2}
+// panicked (reflect.Set: value of type interp.valueInterface is not assignable to type struct),
+// because doComposite still took the type of the statement's first destination for its own
+// destination; the same confusion made h.F = X{2}, arr[0] = X{3} and *p = X{4} panic on the
+// original tree.
+func c01R35(ic *IC, r *Report) {
+	info := ic.Info
+	dt := ic.F["destType"]
+	if dt == nil || dt.Decl.Body == nil {
+		r.Errorf("R01.35: destType not found")
+		return
+	}
+	ancFld := ic.field("node", "anc")
+	typFld := ic.field("node", "typ")
+	findexFld := ic.field("node", "findex")
+	n := 0
+	var bad []string
+	ast.Inspect(dt.Decl.Body, func(q ast.Node) bool {
+		rs, ok := q.(*ast.ReturnStmt)
+		if !ok || len(rs.Results) != 1 {
+			return true
+		}
+		// does the returned type come from a child of the ancestor (directly or through a local)?
+		fromAnc := false
+		var visit func(e ast.Expr, depth int)
+		visit = func(e ast.Expr, depth int) {
+			ast.Inspect(e, func(z ast.Node) bool {
+				switch y := z.(type) {
+				case *ast.SelectorExpr:
+					if selField(info, y) == ancFld {
+						fromAnc = true
+					}
+				case *ast.Ident:
+					if v, ok := info.Uses[y].(*types.Var); ok && !v.IsField() && depth < 2 {
+						ast.Inspect(dt.Decl.Body, func(d ast.Node) bool {
+							if as, ok := d.(*ast.AssignStmt); ok && len(as.Lhs) == len(as.Rhs) {
+								for i, l := range as.Lhs {
+									if id := identOf(l); id != nil && info.Defs[id] == v {
+										visit(as.Rhs[i], depth+1)
+									}
+								}
+							}
+							return true
+						})
+					}
+				}
+				return true
+			})
+		}
+		if selField(info, rs.Results[0]) == typFld {
+			visit(rs.Results[0], 0)
+		}
+		if !fromAnc {
+			return true
+		}
+		n++
+		guarded := false
+		for _, g := range pathGuards(dt.Decl.Body, rs) {
+			if !g.want {
+				continue
+			}
+			cmp := false
+			ast.Inspect(g.cond, func(z ast.Node) bool {
+				if be, ok := z.(*ast.BinaryExpr); ok && be.Op == token.EQL && selField(info, be.X) == findexFld && selField(info, be.Y) == findexFld {
+					cmp = true
+				}
+				return true
+			})
+			if cmp {
+				guarded = true
+			}
+		}
+		if !guarded {
+			bad = append(bad, "return "+types.ExprString(rs.Results[0])+" at "+ic.pos(rs.Pos()))
+		}
+		return true
+	})
+	if n == 0 {
+		r.Pass("R01.35", "destType/left-hand-side-type-only-when-built-there", ic.pos(dt.Decl.Pos()), "destType never returns the type of the statement's left-hand side")
+		return
+	}
+	r.Check(len(bad) == 0, "R01.35", "destType/left-hand-side-type-only-when-built-there", ic.pos(dt.Decl.Pos()), "the type of the left-hand side is returned under a comparison of frame locations",
+		"destType gives the generator of a struct literal the type of the statement's first destination ("+strings.Join(bad, "; ")+") without testing that the literal is built there (same frame location): when the assign operation is not skipped - a multiple assignment, a field, element or pointee destination - the literal wraps itself for an interface destination and stores the wrapper in its own struct-typed slot: var i1, i2 I = X{1}, X{2} panics in reflect.Set")
 }
